@@ -48,11 +48,13 @@ OPT_OF = {
     "WHILE": "WhileOptions", "IF": "IfOptions", "CALL_ONCE": "CallOnceOptions", "CALL": "CallOptions",
     "LESS": "LessOptions", "GREATER": "GreaterOptions", "EQUAL": "EqualOptions",
     "VAR_HANDLE": "VarHandleOptions", "ASSIGN_VARIABLE": "AssignVariableOptions", "READ_VARIABLE": "ReadVariableOptions",
+    "UNIDIRECTIONAL_SEQUENCE_LSTM": "UnidirectionalSequenceLSTMOptions",
 }
 VERSION = {"CONV_2D": 3, "DEPTHWISE_CONV_2D": 3, "FULLY_CONNECTED": 4, "MAX_POOL_2D": 2, "AVERAGE_POOL_2D": 2, "ADD": 2,
            "SUB": 2, "MUL": 2, "CONCATENATION": 2, "PAD": 2, "LOGISTIC": 2, "TANH": 2, "RELU": 2, "RELU6": 2,
            "LEAKY_RELU": 2, "SOFTMAX": 2, "MEAN": 2, "RESIZE_BILINEAR": 2, "RESIZE_NEAREST_NEIGHBOR": 2,
-           "QUANTIZE": 2, "TRANSPOSE_CONV": 2, "STRIDED_SLICE": 2, "MINIMUM": 2, "MAXIMUM": 2, "SPLIT": 2}
+           "QUANTIZE": 2, "TRANSPOSE_CONV": 2, "STRIDED_SLICE": 2, "MINIMUM": 2, "MAXIMUM": 2, "SPLIT": 2,
+           "UNIDIRECTIONAL_SEQUENCE_LSTM": 3}
 
 
 class T:
@@ -61,6 +63,7 @@ class T:
     def __init__(self, idx, shape, dtype, scale, zp, data, name, qdim):
         self.idx, self.shape, self.dtype, self.scale, self.zp, self.data, self.name, self.qdim = (
             idx, list(shape), dtype, scale, zp, data, name, qdim)
+        self.is_variable = False       # a state tensor (kept between invocations, e.g. of an LSTM)
 
 
 class Net:
@@ -90,10 +93,10 @@ class Net:
         self.inputs.append(t)
         return t
 
-    def op(self, kind, inputs, outputs, opts=None, custom_code=None, custom_options=None, version=None):
+    def op(self, kind, inputs, outputs, opts=None, custom_code=None, custom_options=None, version=None, intermediates=None):
         self.ops.append(dict(kind=kind, inputs=list(inputs), outputs=list(outputs), opts=opts or {},
                              custom_code=custom_code, custom_options=custom_options,
-                             version=version or VERSION.get(kind, 1)))
+                             version=version or VERSION.get(kind, 1), intermediates=list(intermediates or [])))
         self.desc.append(kind)
         return outputs[0] if outputs else None
 
@@ -190,6 +193,8 @@ class Net:
                 Tensor.TensorAddName(b, nm)
                 if q is not None:
                     Tensor.TensorAddQuantization(b, q)
+                if t.is_variable:
+                    Tensor.TensorAddIsVariable(b, True)
                 tens_offs.append(Tensor.TensorEnd(b))
             # operators
             op_offs = []
@@ -213,7 +218,12 @@ class Net:
                 co = None
                 if o["custom_options"] is not None:
                     co = b.CreateByteVector(bytes(o["custom_options"]))
+                imv = None
+                if o.get("intermediates"):
+                    imv = b.CreateNumpyVector(np.array([t.idx for t in o["intermediates"]], dtype=np.int32))
                 Operator.OperatorStart(b)
+                if imv is not None:
+                    Operator.OperatorAddIntermediates(b, imv)
                 Operator.OperatorAddOpcodeIndex(b, code_idx[(o["kind"], o["custom_code"], o["version"])])
                 Operator.OperatorAddInputs(b, iv)
                 Operator.OperatorAddOutputs(b, ov)
@@ -2024,6 +2034,76 @@ def fam_split_conv(rng, kind=None):
 
 
 FAMILIES["split_conv"] = fam_split_conv
+
+
+def lstm_layer(net, rng, x, n_cell, time_major, variant="plain", tag="l0"):
+    """one fully integer UNIDIRECTIONAL_SEQUENCE_LSTM on x ([batch, time, feature], or [time, batch, feature] when
+    time_major): 24 inputs (absent ones None), two variable state tensors, five intermediates (the converter's layout).
+    variant: plain | cifg | peephole | projection | lnorm (all but plain are outside Vela's LSTM constraints)"""
+    nb, nt = (x.shape[1], x.shape[0]) if time_major else (x.shape[0], x.shape[1])
+    nf = x.shape[2]
+    n_out = n_cell
+
+    def wts(shape, nm):
+        sc = _rs(rng, 0.002, 0.02)
+        return net.tensor(shape, "int8", sc, 0, _wdata(rng, shape, "int8"), name="%s_%s" % (tag, nm))
+
+    def bias(w, in_scale, nm):
+        return net.tensor([n_cell], "int32", float(np.float32(in_scale * w.scale)), 0,
+                          [rng.randint(-2000, 2000) for _ in range(n_cell)], name="%s_%s" % (tag, nm))
+    h_scale, h_zp = _rs(rng, 0.004, 0.01), rng.choice([0, 0, -5, 11])
+    iw = [wts([n_cell, nf], "w_i%d" % k) for k in range(4)]
+    rw = [wts([n_cell, n_out], "w_r%d" % k) for k in range(4)]
+    bs = [bias(iw[k], x.scale, "b%d" % k) for k in range(4)]
+    out_state = net.tensor([nb, n_out], "int8", h_scale, h_zp, name="%s_output_state" % tag)
+    cell_state = net.tensor([nb, n_cell], "int16", float(2.0 ** rng.choice([-11, -11, -12, -10])), 0, name="%s_cell_state" % tag)
+    out_state.is_variable = cell_state.is_variable = True
+    inputs = [x] + iw + rw + [None] * 3 + bs + [None] * 2 + [out_state, cell_state] + [None] * 4
+    if variant == "cifg":
+        inputs[1] = inputs[5] = inputs[12] = None
+    elif variant == "peephole":
+        for k in (9, 10, 11):
+            inputs[k] = net.tensor([n_cell], "int16", _rs(rng, 0.0001, 0.001), 0,
+                                   [rng.randint(-3000, 3000) for _ in range(n_cell)], name="%s_peep%d" % (tag, k))
+    elif variant == "projection":
+        inputs[16] = wts([n_out, n_cell], "w_proj")
+    elif variant == "lnorm":
+        for k in (20, 21, 22, 23):
+            inputs[k] = net.tensor([n_cell], "int16", _rs(rng, 0.00003, 0.0003), 0,
+                                   [rng.randint(1000, 30000) for _ in range(n_cell)], name="%s_ln%d" % (tag, k))
+    inter = [net.tensor([], "int16", _rs(rng, 0.0001, 0.001), 0, name="%s_intermediate_%d" % (tag, k)) for k in range(4)]
+    inter.append(net.tensor([], "int8", _rs(rng, 0.004, 0.01), rng.choice([0, 0, -3, 7]), name="%s_intermediate_4" % tag))
+    y = net.tensor(list(x.shape[:2]) + [n_out], "int8", h_scale, h_zp, name="%s_out" % tag)
+    net.op("UNIDIRECTIONAL_SEQUENCE_LSTM", inputs, [y],
+           dict(FusedActivationFunction=4, CellClip=float(rng.choice([0.0, 0.0, 10.0])), ProjClip=0.0, TimeMajor=bool(time_major)),
+           intermediates=inter)
+    return y
+
+
+def fam_lstm(rng, kind=None):
+    """UNIDIRECTIONAL_SEQUENCE_LSTM, fully integer (int8 activations, int16 cell state), as the converter writes it.
+    kind: seq (batch major) | tm (time major) | stack (two layers) | tail (LSTM, then a reshape and a classifier) |
+    cifg | peephole | projection | lnorm (outside Vela's constraints: must stay on the CPU, verbatim)"""
+    kind = kind or rng.choice(["seq", "seq", "tm", "stack", "tail", "cifg", "peephole", "projection", "lnorm"])
+    net = Net("lstm_" + kind)
+    tm = kind == "tm" or (kind in ("stack", "cifg", "peephole") and rng.random() < 0.3)
+    nb, nt, nf = rng.choice([1, 1, 2, 3]), rng.choice([1, 2, 3, 5]), rng.choice([4, 8, 10, 16, 24])
+    n_cell = rng.choice([4, 8, 12, 16, 32])
+    x = _inp(net, rng, [nt, nb, nf] if tm else [nb, nt, nf], "int8")
+    variant = kind if kind in ("cifg", "peephole", "projection", "lnorm") else "plain"
+    y = lstm_layer(net, rng, x, n_cell, tm, variant)
+    if kind == "stack":
+        y = lstm_layer(net, rng, y, rng.choice([4, 8, 16]), tm, "plain", tag="l1")
+    elif kind == "tail":
+        flat = net.tensor([y.shape[0], y.shape[1] * y.shape[2]], "int8", y.scale, y.zp)
+        shp = net.tensor([2], "int32", None, None, list(flat.shape), name="tail_shape")
+        net.op("RESHAPE", [y, shp], [flat], dict(NewShape=list(flat.shape)))
+        y = fully_connected(net, rng, flat, rng.choice([4, 10]))
+    net.output(y)
+    return net
+
+
+FAMILIES["lstm"] = fam_lstm
 
 
 def generate(family, seed):
